@@ -134,6 +134,8 @@ def validation(ck, ctx):
             if c[1] == "graph::Build::validation_ins":
                 be = strip(c[2][0])
                 okb = be[0] == "call" and be[1].endswith("Index<K>>::index") and strip(be[2][1])[0] == "param"
+        whole, bad_ad = C.iter_is_whole(R.arg(bb, 3))
+        ck.ob("validation", "all-validation-inputs#%d" % i, whole, "every validation input is visited (no limiting iterator adapter: %s)" % bad_ad, span=t["loc"], fn=b.nname)
         ck.ob("validation", "own-build#%d" % i, okb, "the loop iterates validation_ins of graph.builds[<id param>]", span=t["loc"], fn=b.nname)
     # ordering visits use the caller's stack (cycle detection covers them)
     for i, (bb, t) in enumerate(ord_sites):
